@@ -1152,7 +1152,7 @@ def optimize_random_greedy_track_flops(
             cp0.flops_limit = best_flops
 
     # for consistency with cotengrust / easier comparison
-    best_flops = math.log10(best_flops)
+    best_flops = math.log10(max(1, best_flops))
 
     if not use_ssa:
         best_path = ssa_to_linear(best_path, len(inputs))
